@@ -17,6 +17,7 @@ from . import refgraph
 
 def run(ctx):
     refgraph.rule_iter(ctx, "C02.live_iteration")
+    refgraph.rule_identity_membership(ctx, "C02.identity_membership")
     prod = refgraph.rule_refkeys(ctx, "C02.refkey_declared")
     refgraph.rule_connect_sequence(ctx, "C02.connect_disconnect_order")
     refgraph.rule_removal_helpers(ctx, "C02.removal_helpers")
